@@ -528,7 +528,7 @@ func run(c *hx.Ctx) error {
 		// development aid: only the control-flow stream, n cases
 		k := 0
 		fmt.Sscan(n, &k)
-		return controlFlowStream(c, k, 150)
+		return controlFlowStream(c, k, 40)
 	}
 	if n := os.Getenv("C01_DEV_PROGRAMS"); n != "" {
 		// development aid: only the whole-program stream, no shrinking
